@@ -313,6 +313,7 @@ class Crate:
             raw2, inl = inline_new_helpers(self, raw, d)
             self._bodies[d] = Body(self, e, raw2)
             self._bodies[d].inlined_helpers = inl
+            self._bodies[d].n_own_blocks = len(raw["blocks"])
         return self._bodies[d]
 
     def _raw(self, d):
@@ -910,7 +911,31 @@ class Body:
         return self._dom
 
     def dominates(self, a, b):
-        """Block a dominates block b (reflexive)."""
+        """Block a dominates block b (reflexive). Where `a` lies in a helper that was spliced in (a block extracted into a function after the freeze),
+        the helper's early error return merges with its normal return and the caller's `?` separates them again: `a` still lies on every feasible path
+        to `b`, which the correlated reachability decides."""
+        if self._dominates_plain(a, b):
+            return True
+        n_own = getattr(self, "n_own_blocks", None)
+        if n_own is None or not getattr(self, "inlined_helpers", None) or a < n_own or b not in self.idom:
+            return False
+        cache = self.__dict__.setdefault("_cp_avoid_cache", {})
+        if a not in cache:
+            # cheap necessary conditions first: a is reachable, and b is not reachable around a even without any knowledge
+            if a not in self.entry_reachable():
+                cache[a] = None
+            else:
+                cache[a] = self.reachable_cp([0], cap=20000, avoid={a})
+        if cache[a] is None:
+            return False
+        rk = ("from", a)
+        if rk not in self._reach_cache:
+            self._reach_cache[rk] = self.reachable_from(self.succ[a])
+        if b not in self._reach_cache[rk]:
+            return False
+        return a in self.idom and b not in cache[a]
+
+    def _dominates_plain(self, a, b):
         idom = self.idom
         if b not in idom:
             return False
@@ -1139,7 +1164,13 @@ class Body:
         return "_%d" % path.root
 
     # -- derives-from (flow-insensitive backward slice) ---------------------------------------
-    def sources(self, operand, max_nodes=4000, stop_at_calls=True, transparent=TRANSPARENT, stop_bin=()):
+    def dep_locals(self, operand):
+        """Locals the value of `operand` is computed from (transitively: copies, fields, operators, aggregates, call arguments)."""
+        got = set()
+        self.sources(operand, stop_at_calls=False, collect=got)
+        return got
+
+    def sources(self, operand, max_nodes=4000, stop_at_calls=True, transparent=TRANSPARENT, stop_bin=(), collect=None):
         """Set of primitive sources an operand may derive from:
         ('const', value, constdesc) ('arg', local) ('call', Call) ('field', Path) ('local', n)"""
         out = []
@@ -1157,6 +1188,8 @@ class Body:
             if key in seen:
                 return
             seen.add(key)
+            if collect is not None:
+                collect.add(p[0])
             work.append(p)
 
         push_op(operand)
@@ -1819,14 +1852,14 @@ class Body:
                         d[(dl, "variant")] = 0 if av == 1 else 1
         return d
 
-    def reachable_cp(self, start_blocks, cap=40000):
+    def reachable_cp(self, start_blocks, cap=40000, avoid=()):
         """Blocks reachable from start_blocks when constants and known variants (through aggregates, moves, `?`) decide the matches they reach."""
         seen, blocks = set(), set()
-        dq = deque((s_, ()) for s_ in start_blocks)
+        dq = deque((s_, frozenset()) for s_ in start_blocks if s_ not in avoid)
         while dq and cap > 0:
             cap -= 1
             b, env = dq.popleft()
-            if (b, env) in seen:
+            if (b, env) in seen or b in avoid:
                 continue
             seen.add((b, env))
             blocks.add(b)
@@ -1840,11 +1873,20 @@ class Body:
                     val = int(val) if isinstance(val, bool) else val
                     hit = [tb for v_, tb in t["arms"] if (int(v_) if isinstance(v_, str) else v_) == val]
                     succs = hit[:1] if hit else [t["otherwise"]]
-            env2 = tuple(sorted(d.items(), key=repr))
+            env2 = frozenset(d.items())
             for s_ in succs:
                 if not self.is_cleanup(s_):
                     dq.append((s_, env2))
         if cap <= 0:
+            if avoid:
+                seen_b, st = set(), [s_ for s_ in start_blocks if s_ not in avoid]
+                while st:
+                    x = st.pop()
+                    if x in seen_b or x in avoid:
+                        continue
+                    seen_b.add(x)
+                    st.extend(s_ for s_ in self.succ[x] if not self.is_cleanup(s_))
+                return seen_b
             return self.reachable_from(list(start_blocks))
         return blocks
 
@@ -2530,7 +2572,7 @@ def guards(body, b):
     return out
 
 
-def dom_guards(body, b):
+def dom_guards(body, b, _depth=0):
     """Branch conditions that necessarily hold whenever block b is entered: for every switch block
     a that dominates b, the unique successor s (with a as only predecessor) that dominates b.
     Unlike `guards`, loops do not add the conditions of sibling arms."""
@@ -2546,5 +2588,64 @@ def dom_guards(body, b):
                 if lab == "0" and set(body.switch_info(a)["raw_arms"].keys()) == {0}:
                     lab = "false"
                 out.append((switch_desc(body, a), lab, a))
+                if lab in ("true", "false") and _depth < 2:
+                    out.extend(g_ for g_ in _implied_by_flag(body, a, lab == "true", b, _depth) if g_ not in out)
                 break
+    return out
+
+
+def _implied_by_flag(body, a, val, b, depth):
+    """`let f = A && B; if f {..}`: the test of a hoisted boolean. When only one assignment can have given `f` the tested value, the conditions under
+    which that assignment runs (and the value it copies) held as well - exactly as if the condition had been written in the `if`. The flag must be
+    computed afresh on every way to the test (all its assignments lie between a common dominator and the test, not after it)."""
+    t = body.term(a)
+    pl = op_place(t.get("discr"))
+    if pl is None or pl[1]:
+        return []
+    root = body.copy_root(t["discr"])
+    if root is None or root >= len(body.locals) or body.locals[root] != "bool":
+        return []
+    cands, blocks = [], []
+    for df in body.defs.get(root, ()):
+        if df[0] != "assign":
+            return []
+        rv = df[3]
+        if rv[0] != "use":
+            return []
+        op = rv[1]
+        if op[0] == "k":
+            v = op[1].get("b") if "b" in op[1] else (bool(op[1]["v"]) if op[1].get("v") in (0, 1, True, False) and op[1].get("ty") == "bool" else None)
+            if v is None:
+                cands.append((df[1], op))  # a named constant: may be either
+            elif v == val:
+                cands.append((df[1], None))
+        elif op[0] in ("c", "m") and not op[1][1]:
+            cands.append((df[1], op))
+        else:
+            return []
+        blocks.append(df[1])
+    if len(cands) != 1 or len(blocks) < 2:
+        return []
+    # freshness: a common dominator D of all assignments dominates the test, and from the test no assignment is reachable without passing D
+    D = blocks[0]
+    while not all(body._dominates_plain(D, k) for k in blocks):
+        nd = body.idom.get(D)
+        if nd is None or nd == D:
+            return []
+        D = nd
+    if not body._dominates_plain(D, a) or not all(body.reaches(k, {a}) for k in blocks):
+        return []
+    seen, st = set(), [x for x in body.succ[a]]
+    while st:
+        x = st.pop()
+        if x in seen or x == D or body.is_cleanup(x):
+            continue
+        seen.add(x)
+        st.extend(body.succ[x])
+    if any(k in seen for k in blocks):
+        return []
+    k, op = cands[0]
+    out = [g_ for g_ in dom_guards(body, k, depth + 1) if body._dominates_plain(D, g_[2])]
+    if op is not None:
+        out.append((describe_operand(body, op), "true" if val else "false", a))
     return out
